@@ -72,18 +72,21 @@ def design_level(rep, tier):
     # round 4: alphabet B (pha/pla/php/plp, cmp/sec, page-wrapped jmp (ind), rti) and alphabet A with fuel for 256-iteration loops
     rb = V.tlc(MC, cfg=cfg("idealB_" + tier), tag="C18-idealB", **big)
     rl = V.tlc(MC, cfg=cfg("long_" + tier), tag="C18-long", **big)
-    for nm, rr in (("alphabet B", rb), ("long fuel", rl)):
+    # round 5: alphabet B with the top-of-memory atoms (sta $ffff, ram16($fffe), ram($ffff), ram16($ffff))
+    rt = V.tlc(MC, cfg=cfg("idealT_" + tier), tag="C18-idealT", **big)
+    for nm, rr in (("alphabet B", rb), ("long fuel", rl), ("alphabet B + top of memory", rt)):
         if rr.invariant_violated:
             rep.violations.append({"why": "design level: TestRunner (%s) violates an invariant" % nm, "replay": {"tlc_output": V.tail(rr.out, 80)}, "id": "MC_TestRunner " + nm})
             return []
         if rr.rc != 0 or "Error:" in rr.out:
             raise V.ToolError("MC_TestRunner (%s) failed:\n%s" % (nm, V.tail(rr.out, 40)))
         rep.add_tlc(rr)
-    casesB = [D.from_tlc_case(l) for l in rb.prints("CASE")]
+    casesB = [D.from_tlc_case(l) for l in rb.prints("CASE")] + [D.from_tlc_case(l) for l in rt.prints("CASE")]
     for c in casesB:
         c["alphabet"] = "B"
-    rep.notes.append("MC_TestRunner alphabet B (%s): %d states, depth %d; long fuel (1400 instructions, alphabet A): %d states, depth %d; same invariants hold"
-                     % (tier, rb.distinct, rb.depth, rl.distinct, rl.depth))
+    rep.notes.append("MC_TestRunner alphabet B (%s): %d states, depth %d; long fuel (1400 instructions, alphabet A): %d states, depth %d; "
+                     "alphabet B with the top-of-memory atoms (17 atoms): %d states; same invariants hold"
+                     % (tier, rb.distinct, rb.depth, rl.distinct, rl.depth, rt.distinct))
     cases += casesB
     if DEV in rep.open:
         rm = V.tlc(MC, cfg=cfg("impl_" + tier), tag="C18-impl", **big)
@@ -100,7 +103,7 @@ def design_level(rep, tier):
         rep.notes.append("MC_TestRunner impl (%s): %d states; property holds weakened by the witness of %s only; "
                          "un-weakened it is violated (TLC counterexample = the finding)" % (tier, rm.distinct, DEV))
     witnesses = ("NoPass", "NoFailInLoop", "NoFailInSub", "NoUnevaluable", "NoSkipped",
-                 "NoWrapJumpPass", "NoRtiPass", "NoBreakBitsSeen", "NoPlpFlags")        # the last four: alphabet B
+                 "NoWrapJumpPass", "NoRtiPass", "NoBreakBitsSeen", "NoPlpFlags", "NoTopByteRead", "NoWordPastTop")        # the last six: alphabet B
 
     def vac(w):
         return w, V.tlc(MC, cfg=cfg("vac_" + w), workers=2, timeout=900, tag="C18-vac-" + w)
@@ -110,7 +113,8 @@ def design_level(rep, tier):
                 raise V.ToolError("vacuous state space: witness %s is not reachable" % w)
     rep.notes.append("vacuity witnesses reachable: long passing run, failure on a re-visit (loop), failure inside the subroutine, "
                      "unevaluable assertion, assertion skipped by a branch; alphabet B: passing runs through the page-wrapped jmp (ind), "
-                     "through rti, with the pushed break bits read back (cpu.a == $34), with flags loaded by plp")
+                     "through rti, with the pushed break bits read back (cpu.a == $34), with flags loaded by plp, reading the last byte of memory "
+                     "with ram($ffff) and ram16($fffe), failing at ram16($ffff)")
     return cases
 
 
@@ -224,6 +228,7 @@ def main(tier):
                        "forward skips, subroutines inside/outside the test, scopes, .loop/index, 1-3 tests, two overlapping banks, php/pla, pha/plp, rti, jmp (ind) through data and page-edge RAM vectors, decimal-flag adds, delay loops of up to thousands of instructions; "
                        "distinct_nontrivial = distinct project texts having a test with a decided (passed/failed) Ideal verdict reached after >= 3 path states")
     rep.cov["decimal_mirror_traces"] = sum(1 for x in stats if x["dev"] == "mirror")
+    rep.cov["crashes_observed"] = {k: sum(1 for r in recs if r["obs"]["panic"] == k) for k in ("slice", "overflow", "other")}
     rep.cov["longest_run_instructions"] = max([len(x["steps"]) for r in recs for x in r["runs"]] or [0])
     rep.cov["ideal_verdicts"] = {k: sum(1 for x in stats if x["dev"] == k) for k in ("passed", "failed", "unspec", "nolayout")}
     rep.cov["hook_traces"] = ntrace
